@@ -138,12 +138,36 @@ Proof.
     unfold step in E. rewrite Eo in E. discriminate.
 Qed.
 
+Lemma combine_map_r {A B C} (g : B -> C) (l : list A) (r : list B) :
+  combine l (map g r) = map (fun p => (fst p, g (snd p))) (combine l r).
+Proof. revert r. induction l as [|a l IH]; intros [|b r]; simpl; try reflexivity. rewrite IH. reflexivity. Qed.
+
+Lemma combine_map_l {A B C} (g : A -> C) (l : list A) (r : list B) :
+  combine (map g l) r = map (fun p => (g (fst p), snd p)) (combine l r).
+Proof. revert r. induction l as [|a l IH]; intros [|b r]; simpl; try reflexivity. rewrite IH. reflexivity. Qed.
+
+(* the labelled samples of a per-series step are a function of the (labels, samples) pairs *)
+Lemma present_as_flat_map (h : labels -> labels) (g : list sample -> option Z) (ls : list labels) (sers : list (list sample)) :
+  present_with_labels (map h ls) (map g sers) =
+  flat_map (fun p : labels * list sample => match g (snd p) with Some v => [(h (fst p), v)] | None => [] end) (combine ls sers).
+Proof.
+  unfold present_with_labels. rewrite combine_map_r, combine_map_l, map_map. simpl.
+  induction (combine ls sers) as [|p l IH]; simpl; [reflexivity|]. rewrite IH. reflexivity.
+Qed.
+
 (* ---- the congruence ---------------------------------------------------------------------- *)
 
 (* the plans the distributed optimizer derives from a central plan: the same operators above
    distributed forms of per-series expressions and of sum/max/min/count aggregations of them *)
 Inductive jsim : jtree -> jtree -> Prop :=
 | sim_refl t : jsim t t
+(* the storage returns the selected series in another order *)
+| sim_leaf_order ls sers ls' sers' off pin :
+    length ls = length sers -> length ls' = length sers' -> Permutation (combine ls sers) (combine ls' sers') ->
+    jsim (JLeaf ls sers off pin) (JLeaf ls' sers' off pin)
+| sim_range_order keep fn range ls sers ls' sers' off pin :
+    length ls = length sers -> length ls' = length sers' -> Permutation (combine ls sers) (combine ls' sers') ->
+    jsim (JRange keep fn range ls sers off pin) (JRange keep fn range ls' sers' off pin)
 | sim_expr s p ps : sok s -> part_ok p -> Forall part_ok ps ->
     jsim (inst s (concat (map fst (p :: ps))) (concat (map snd (p :: ps))))
          (jcoalesce (JRemote (inst s (fst p) (snd p))) (map (fun q => JRemote (inst s (fst q) (snd q))) ps))
@@ -178,10 +202,14 @@ Qed.
 
 Theorem jsim_requiv lb t t' : jsim t t' -> requiv lb t t'.
 Proof.
-  induction 1 as [t|s p ps Hs Hp Hps|add without grouping s p ps Ha Hc Hs Hp Hps|drops f t t' _ IH|p l l' r r' _ IHl _ IHr
+  induction 1 as [t|ls sers ls' sers' off pin Hl Hl' Pc|keep fn range ls sers ls' sers' off pin Hl Hl' Pc|s p ps Hs Hp Hps|add without grouping s p ps Ha Hc Hs Hp Hps|drops f t t' _ IH|p l l' r r' _ IHl _ IHr
                  |init add without grouping t t' L1 L2 _ IH|conv without grouping t t' _ IH|bottom k without grouping t t' _ IH
                  |t t' _ IH|l l' r r' _ IHl _ IHr|t t' _ IH]; intros ts.
   - apply oequiv_refl.
+  - cbn [jref oequiv]. unfold labelled, vec_of, select_step.
+    rewrite !labelled_stepvec by (rewrite map_length; assumption).
+    rewrite <- (map_id ls), <- (map_id ls'), !present_as_flat_map. apply flat_map_perm. exact Pc.
+  - cbn [jref oequiv]. rewrite !present_as_flat_map. apply flat_map_perm. exact Pc.
   - rewrite jref_inst, jref_coalesce_expr. unfold oequiv.
     rewrite (pref_concat s Hs lb (p :: ps) ts (Forall_cons p Hp Hps)). apply Permutation_refl.
   - destruct (laws add Ha Hc) as [L1 L2].
